@@ -9,7 +9,7 @@ from props.c01 import srcfacts_values
 
 PID = 'C09'
 MANIFEST = dict(
-    text='Machine-checked (Coq): for every capacity, batch threshold and history of writes/commits/reads/commit_reads of the bounded queue, whenever the consumer has read everything and has run commit_read since its last read (the backend pass discipline), the published reader position equals the real one and every record that fits the capacity is granted - so a blocking producer resumes and a dropping queue accepts (C09_no_stall, C09_published_exact), with the guard of commit_read read from the source on every run; the pinned tree\'s guard is refuted (D3, fixed). Tied to the real queue by differential runs and a direct monitor. Unbounded-queue clause (Props/Properties_C09u.v, sequential M-UQ model tied to the real UnboundedSPSCQueue): at consumer quiescence every record n <= max is granted when the maximum capacity is a power of two (C09_unbounded_no_stall), and for any maximum every n <= 2^floor(log2 max) (C09_unbounded_no_stall_prev_pow2); for a maximum that is not a power of two the remaining sizes are refuted (uq_nonpow2_refuted; D13, open finding replayed on every run). Scope: the queue-level reason for progress; the "finitely many backend polls" clause at backend level is not covered by a theorem here.',
+    text='Machine-checked (Coq): for every capacity, batch threshold and history of writes/commits/reads/commit_reads of the bounded queue, whenever the consumer has read everything and has run commit_read since its last read (the backend pass discipline), the published reader position equals the real one and every record that fits the capacity is granted - so a blocking producer resumes and a dropping queue accepts (C09_no_stall, C09_published_exact), with the guard of commit_read read from the source on every run; the pinned tree\'s guard is refuted (D3, fixed). Tied to the real queue by differential runs and a direct monitor. Unbounded-queue clause (Props/Properties_C09u.v, sequential M-UQ model tied to the real UnboundedSPSCQueue): at consumer quiescence every record n <= max is granted when the maximum capacity is a power of two (C09_unbounded_no_stall), and for any maximum every n <= 2^floor(log2 max) (C09_unbounded_no_stall_prev_pow2); for a maximum that is not a power of two the remaining sizes are refuted (uq_nonpow2_refuted; D13, open finding replayed on every run). Backend level (Backend/BEPub.v, M-BE, bounded queues): the discipline the queue-level theorem assumes - commit_read after every read pass that consumed something, publish on drain - is an invariant of the backend micro-step model (PubI: at every step boundary of every schedule no read pass is open and the published reader position is exact whenever the consumer has nothing left to read), so for every history, whenever a thread\'s queue is empty its pending statement that fits the capacity is granted at the next try: parked producers resume, a dropping queue accepts (C09_backend_empty_queue_grants; no premise on the backend being idle); the read pass skeleton (commit_read whenever bytes were read) is tied to the source (C09_tie_read_pass_commits). Not proved: that the backend empties the queue within a bounded number of polls (progress of the poll loop under limits and grace period is observed on the driver, not proved).',
     design='5 C09', technique='Coq invariant proof (publish-on-drain) over the sequential queue model + source-fact translator + differential correspondence')
 TRUSTED = [
     'Coq 8.16.1 kernel; theorems Closed under the global context',
